@@ -104,7 +104,7 @@ def main(seed):
                 os.remove(os.path.join(rp, f))
     missed = [r["id"] for r in results if r.get("caught") is False]
     broken = [r["id"] for r in results if "status" in r]
-    with open(os.path.join(VERIF, "evidence", "selftest-sensitivity.json"), "w") as fh:
+    with open(os.path.join(VERIF, "selftests", "selftest-sensitivity.json"), "w") as fh:
         json.dump({"seed": seed, "results": results, "missed": missed, "broken": broken}, fh, indent=1)
     print("sensitivity: %d changes, %d caught, %d missed %s, %d unusable %s" % (
         len(results), sum(1 for r in results if r.get("caught")), len(missed), missed, len(broken), broken))
